@@ -154,7 +154,7 @@ class GenomeOps(Harness):
                        "with symbolic chromosome, start, stop (and strand)",
               "thorough": "adds a 4-chromosome genome and 3 intervals"}
 
-    OPS = ("mask", "pileup", "sorted", "clip", "extend", "location", "windows", "merged0", "merged1")
+    OPS = ("mask", "pileup", "sorted", "clip", "extend", "location", "windows", "merged0", "merged1", "merged0_via_track")
 
     def skeletons(self, tier, seed):
         out = []
@@ -235,8 +235,12 @@ class GenomeOps(Harness):
                 res[where] = dict(chrom=ctx.lst(l.chromosome.raw()), pos=ctx.lst(l.position))
             res["labels"] = labels
             return res
+        def via_track():
+            # the covered runs read back from the mask as intervals, then sorted (genome order) and merged (already maximal: unchanged)
+            from bionumpy.genomic_data.genomic_intervals import GenomicIntervals
+            return GenomicIntervals.from_track(gi.get_mask()).sorted().merged()
         r = dict(sorted=gi.sorted, clip=gi.clip, extend=lambda: gi.extended_to_size(x["L"]),
-                 merged0=lambda: gi.merged(), merged1=lambda: gi.merged(1))[op]()
+                 merged0=lambda: gi.merged(), merged1=lambda: gi.merged(1), merged0_via_track=via_track)[op]()
         res = dict(chrom=ctx.lst(r.chromosome.raw()), start=ctx.lst(r.start), stop=ctx.lst(r.stop), labels=labels, n=len(r))
         if op == "extend":
             # the extended intervals are still stranded intervals: the strand column survives and strand-aware methods keep using it
@@ -347,7 +351,7 @@ class GenomeOps(Harness):
 
     def _post_merged(self, skel, x, out, names, ent, included, code, inc_term):
         """per chromosome: output runs = definitional scan over that chromosome's intervals; runs never span chromosomes"""
-        d = 0 if skel["op"] == "merged0" else 1
+        d = 0 if skel["op"] in ("merged0", "merged0_via_track") else 1
         m = len(out["start"])
         n = len(ent)
         inc = [inc_term(e["c"]) for e in ent]
@@ -411,7 +415,7 @@ class GenomeOps(Harness):
                     return f"get_location({where}) of {desc}: {got}, expected {exp}"
             return None
         if op.startswith("merged"):
-            d = 0 if op == "merged0" else 1
+            d = 0 if op in ("merged0", "merged0_via_track") else 1
             exp = []
             for e in inc:
                 c = labels.index(names[e["c"]])
